@@ -30,16 +30,46 @@ def visible(log, names):
     return out
 
 
+def network_scenarios(ctx):
+    """Network scenarios (string element ids, hubs, switches, schedulers, ports) executed twice in one interpreter process and
+    again in separate processes under other string-hash seeds: the recorded traces must be identical."""
+    from . import c18, schedlib, c09
+    n = 250 if ctx.quick else 3000
+    batches = {
+        "routing": [c18.random_scenario(ctx) for _ in range(2 * n)],
+        "sched": [schedlib.random_scenario(ctx.rng, k, policy="ANY") for k in schedlib.KINDS for _ in range(n // 6 + 1)],
+        "port": [c09.decorate(ctx, c09.random_workload(ctx, red=(i % 3 == 0))) for i in range(n)],
+    }
+    for driver, scs in batches.items():
+        ref = ctx.drive(driver, scs + scs, procs=8, hashseed="0")
+        for i, sc in enumerate(scs):
+            if ref[i] != ref[len(scs) + i]:
+                ctx.violation("rerun", {"driver": driver, "scenario": sc}, {"first": ref[i], "second": ref[len(scs) + i]},
+                              "two executions of one %s scenario in the same interpreter process differ" % driver, sig="rerun " + driver)
+        for hs in ("1", "4242"):
+            out = ctx.drive(driver, scs, procs=8, hashseed=hs)
+            for i, sc in enumerate(scs):
+                if out[i] != ref[i]:
+                    ctx.violation("hashseed", {"driver": driver, "scenario": sc, "hashseed": hs}, {"seed0": ref[i], "other": out[i]},
+                                  "%s trace under PYTHONHASHSEED=%s differs from the trace under 0" % (driver, hs), sig="hashseed " + driver)
+            ctx.count("network_hashseed_repetition", len(scs))
+        ctx.traces += 2 * len(scs)
+
+
 def run(ctx, replay=None):
     if replay:
         return kernlib.replay(ctx, replay)
     if ctx.quick:
         kernlib.mc_replay(ctx, "KernelMC_c03.cfg")
         tr, _ = kernlib.gen_validate(ctx, 1500, KINDS, plan_kinds=PLAN, max_plan=6, label="generated-plans")
+        kernlib.gen_validate(ctx, 1200, KINDS, plan_kinds=dict(PLAN, rununtil=6), max_plan=6, label="generated-plans-float-instants",
+                             **{"float": kernlib.FLOAT})
     else:
         kernlib.mc_replay(ctx, "KernelMC_c03.cfg", {"MaxPlan = 4": "MaxPlan = 5"}, label="KernelMC/c03 plan5")
         kernlib.mc_replay(ctx, "KernelMC_c03.cfg", {"MaxOps = 2": "MaxOps = 3", "MaxEv = 8": "MaxEv = 8"}, label="KernelMC/c03 2x3")
         tr, _ = kernlib.gen_validate(ctx, 15000, KINDS, plan_kinds=PLAN, max_plan=7, label="generated-plans")
+        kernlib.gen_validate(ctx, 15000, KINDS, plan_kinds=dict(PLAN, rununtil=6), max_plan=7, label="generated-plans-float-instants",
+                             **{"float": kernlib.FLOAT})
     # (a) hash seeds, separate interpreter processes
     progs = [{"scripts": t["scripts"]} for t in tr]
     for hs in ("1", "4242"):
@@ -83,6 +113,7 @@ def run(ctx, replay=None):
                           "process-visible log of the split run is not a prefix of the uninterrupted run's (entry %d)" % (pos + 1),
                           sig="split-vs-uninterrupted")
     ctx.extra["split_runs_equal_to_uninterrupted"] = eq
+    network_scenarios(ctx)
     return ctx.finish(RULE, assumptions=["hash seeds are sampled (0, 1, 4242), not quantified over"])
 
 
